@@ -3,8 +3,8 @@ package patch
 import (
 	"errors"
 	"fmt"
-	"strings"
 
+	apb "github.com/google/fhir/go/proto/google/fhir/proto/annotations_go_proto"
 	dtpb "github.com/google/fhir/go/proto/google/fhir/proto/r4/core/datatypes_go_proto"
 	"github.com/iancoleman/strcase"
 	"github.com/verily-src/fhirpath-go/fhirpath"
@@ -580,7 +580,10 @@ func (e *Expression) getRefAndFieldForCollection(collection system.Collection, t
 func (e *Expression) unwrapOneof(obj proto.Message) proto.Message {
 	message := obj.ProtoReflect()
 	descriptor := message.Descriptor()
-	if name := string(descriptor.Name()); !(strings.HasSuffix(name, "ValueX") || name == "ContainedResource") {
+	// Keep in step with FieldExpression.unwrapOneof: choice elements are the
+	// wrapper messages google/fhir marks with the is_choice_type annotation.
+	isChoice, _ := proto.GetExtension(descriptor.Options(), apb.E_IsChoiceType).(bool)
+	if !(isChoice || descriptor.Name() == "ContainedResource") {
 		return obj
 	}
 	oneofsNum := descriptor.Oneofs().Len()
